@@ -33,6 +33,7 @@ template <class K> static Adapter* mk_vyu(const Case& c) {
   using Q = xenium::vyukov_bounded_queue<typename K::T>;
   QSpec sp; sp.cap = c.geti("cap", 2);
   auto* a = new QueueAdapter<Q, K, VyuOps<Q, K>>([](const Case& cc) { return new Q((std::size_t)cc.geti("cap", 2)); }, sp);
+  a->lf = [](const Case&, const OpSpec& op) { return op.name == "pushw" || op.name == "popw"; };   // the strong operations may wait for a stalled peer
   a->naming = [](Q* q, const Case& cc) {
     xv::name_range(&q->enqueue_pos, sizeof q->enqueue_pos, "enq");
     xv::name_range(&q->dequeue_pos, sizeof q->dequeue_pos, "deq");
@@ -44,7 +45,9 @@ template <class K> static Adapter* mk_vyu(const Case& c) {
 template <class K, unsigned R> static Adapter* mk_nikb(const Case& c) {
   using Q = xenium::nikolaev_bounded_queue<typename K::T, xenium::policy::pop_retries<R>>;
   QSpec sp; sp.cap = npow2(c.geti("cap", 2)); sp.full_slack = (long)c.prog.size();   // every other operation in progress may occupy a slot
-  return new QueueAdapter<Q, K, NikbOps<Q, K>>([](const Case& cc) { return new Q((std::size_t)cc.geti("cap", 2)); }, sp);
+  auto* a = new QueueAdapter<Q, K, NikbOps<Q, K>>([](const Case& cc) { return new Q((std::size_t)cc.geti("cap", 2)); }, sp);
+  a->lf = [](const Case& cc, const OpSpec&) { return (long)cc.prog.size() < npow2(cc.geti("cap", 2)); };   // documented: lock-free only with fewer threads than slots
+  return a;
 }
 
 static Case g_case;
